@@ -433,6 +433,48 @@ func (c *Ctx) ruleLifecycleHelpers(rule string) {
 				}
 			}
 		})
+		// once an engine has been taken out of the pool, the function can only hand it to its caller:
+		// a return with an error (or without the wrapper) after the acquisition would lose the engine,
+		// since the callers install the hand-back only after prepare* succeeded
+		if get != nil {
+			nilErr, _ := x.nilEdges(f, func(v ssa.Value) bool {
+				ex, ok := x.Origin(v).(*ssa.Extract)
+				return ok && ex.Tuple == ssa.Value(get) && ex.Index == 1
+			})
+			okKeep := len(nilErr) > 0
+			var lostAt token.Pos
+			eachInstr(f, func(in ssa.Instruction) {
+				r, ok := in.(*ssa.Return)
+				if !ok || len(r.Results) != 2 || r.Block() == f.Recover {
+					return
+				}
+				// returns that can follow a successful acquisition
+				after := false
+				for e := range nilErr {
+					if x.edgeDominated(e.from, e.succ)[r.Block()] {
+						after = true
+					}
+				}
+				if !after {
+					return
+				}
+				for _, pv := range x.PossibleValues(r.Results[1]) {
+					if pv.V != nil && !isConstNil(pv.V) {
+						okKeep, lostAt = false, r.Pos()
+					}
+				}
+				for _, pv := range x.PossibleValues(r.Results[0]) {
+					ex, isEx := pv.V.(*ssa.Extract)
+					if pv.V == nil || !isEx || ex.Tuple != ssa.Value(get) || ex.Index != 0 {
+						okKeep, lostAt = false, r.Pos()
+					}
+				}
+			})
+			if !lostAt.IsValid() {
+				lostAt = f.Pos()
+			}
+			c.Check(rule, "GenginePool."+n+"#acquired-engine-is-handed-on", okKeep, lostAt, "after getGengine succeeded the function must return that wrapper and no error on every path: an error return here loses the engine for good (the callers defer the hand-back only after a successful prepare)")
+		}
 		c.Check(rule, "GenginePool."+n+"#own-rulebuilder", bound, f.Pos(), "the acquired wrapper must be bound to gp.rbSlice[gw.tag], its private rule builder and data context")
 		// data is injected into that wrapper's data context only
 		okAdd := true
